@@ -337,11 +337,17 @@ func (vc *VC) pkgOf(fn *ssa.Function) *types.Package {
 func (vc *VC) selfEnv(st *State, results []Term) *Env {
 	e := &Env{vc: vc, st: st, old: vc.entry, vars: map[string]Term{}, pkg: vc.pkgOf(vc.fn)}
 	for i, p := range vc.fn.Params {
-		name := p.Name()
+		name := vc.P.contractParamName(vc.spec, vc.fn, i)
 		if i < len(vc.spec.Params) && vc.spec.Params[i] != "" {
 			name = vc.spec.Params[i]
 		}
 		e.vars[name] = vc.vals[p]
+		if name != p.Name() {
+			// (a renamed parameter: the body's clauses may use either name)
+			if _, taken := e.vars[p.Name()]; !taken {
+				e.vars[p.Name()] = vc.vals[p]
+			}
+		}
 	}
 	for i, fv := range vc.fn.FreeVars {
 		e.vars["&"+fv.Name()] = vc.vals[fv]
